@@ -8,7 +8,7 @@ import core  # noqa
 
 RUNS = [
     ("MC_Syntax", "SPECIFICATION Spec\nCONSTANT MaxLen = 5\nINVARIANT Sound\n", {"EMITMOD": 0}),
-    ("MC_Net", "SPECIFICATION Spec\nCONSTANTS\n  Clients = {\"c1\", \"c2\"}\n  MaxCalls = 3\nINVARIANT CookieIsolation\n", {}),
+    ("MC_Net", "SPECIFICATION Spec\nCONSTANTS\n  Clients = {\"c1\", \"c2\"}\n  NoPersist = {\"c2\"}\n  MaxCalls = 3\nINVARIANT CookieIsolation\n", {}),
     ("MC_GetConfig", "SPECIFICATION Spec\nCONSTANTS\n MaxRuns = 2\n Rule = \"ref\"\nINVARIANT Persist\nVIEW View\n", {}),
     ("MC_Compose", None, {}),
     ("MC_ProfileCache", "SPECIFICATION Spec\nCONSTANTS\n  Clients <- MC_Clients\n  Servers <- MC_Servers\n  Keys <- MC_Keys\n  KeyOf <- MC_KeyOf\n"
